@@ -390,8 +390,12 @@ theorem inv_accStep {s t : St} (h : SInv s) (hs : evAccStep s = some t) : SInv t
     exact passedCase _ .okSpawned ha rfl rfl _ rfl rfl rfl rfl rfl rfl rfl h.conserve
   · rename_i ha; simp at hs; subst hs
     exact passedCase _ (.done 0) ha rfl rfl _ rfl rfl rfl rfl rfl rfl rfl h.conserve
-  · rename_i ha; simp at hs; subst hs
-    exact passedCase _ .lisSet ha rfl rfl _ rfl rfl rfl rfl rfl rfl rfl h.conserve
+  · rename_i ha
+    split at hs
+    · simp at hs; subst hs
+      exact passedCase _ .lisSet ha rfl rfl _ rfl rfl rfl rfl rfl rfl rfl h.conserve
+    · simp at hs; subst hs
+      exact passedCase _ (.done 0) ha rfl rfl _ rfl rfl rfl rfl rfl rfl rfl h.conserve
   · rename_i ha; simp at hs; subst hs
     exact passedCase _ (.done 0) ha rfl rfl _ rfl rfl rfl rfl rfl rfl rfl h.conserve
   · rename_i st ha
